@@ -586,6 +586,14 @@ const DEVIATIONS_FIXED: &[&str] = &[
     "stel b = 1; stel a = 2; zz",
     "stel a = 3; 1 + ja",
     "stel n = 5; stel p = 6; zz",
+    // lines that end / start in a space the language does not know (the prompt hands the line to the parser as
+    // it is: these are refused), and a line of nothing else
+    "1 + 1\u{a0}",
+    "a\u{3000}",
+    "\u{2003}",
+    "\u{a0}a + 1",
+    "a + 1\u{200b}",
+    "a + 1 \t \r",
     // failing lines that declare a name AND read it from inside a function body
     "stel a = 3; functie() { a }(); zz",
     "stel spook = 5; functie() { spook }(); zz",
